@@ -1,20 +1,48 @@
 import BppProofs.Lemmas.NumDerivReach
 /-!
 C12 helper lemmas, part 5: the nominal path.  Without constraints on the probed variables and with
-an objective that stays below `VERY_BIG`, every probe goes through at the first try; the state of
+an objective that stays below `VERY_BIG` at the probed points, every probe goes through at the first try; the state of
 the wrapped function and the stored derivatives are then known exactly.
 -/
 namespace Bpp.NumDeriv
 open Bpp Bpp.Scalar
 
 /-- the nominal situation of one `updateDerivatives`: no constraint on the wrapped function's side,
-no constraint and no precision on the parameters of the list that was passed, and `f` never
-"too large" -/
+no constraint and no precision on the parameters of the list that was passed.  (`f` is a parameter
+only for uniformity of the statements; that `f` is not "too large" where the two- and three-point
+schemes test it is the separate, local hypothesis `BoundedNear`.) -/
 structure Free (f : List ℝ → ℝ) (params B : PList ℝ) : Prop where
   ctx : Ctx params B
   nocon : ∀ b ∈ B, b.con = none
   pfree : ∀ q ∈ params, q.con = none ∧ q.prec = 0
-  bounded : ∀ pt, tooBig (f pt) = false
+
+/-- `|f| < VERY_BIG` (and `f` not NaN) where the two- and three-point schemes test it
+(Two:20, 73; Three:20, 75, 113): at the base point `B` and, along each coordinate, within one step
+`H = (1 + |x|) |h|` of the base value (the probes are at `x ∓ H`, `x ∓ H/2`, …).  Local: a
+non-constant polynomial satisfies it when its values on these segments are below 1.7e23.  The
+five-point scheme and the cross-derivative block have no such test. -/
+structure BoundedNear (f : List ℝ → ℝ) (B : PList ℝ) (hh : ℝ) : Prop where
+  base : tooBig (f (values B)) = false
+  line : ∀ var b, find? B var = some b → ∀ x, |x - b.value| ≤ (1 + |b.value|) * |hh| →
+    tooBig (f (values (upd1 B var x))) = false
+
+/-- the probe abscissae `x + s H`, `|s| ≤ 1`, are within the segment of `BoundedNear` -/
+theorem BoundedNear.at {f : List ℝ → ℝ} {B : PList ℝ} {hh : ℝ} (hB : BoundedNear f B hh) (var : Name) (b : Param ℝ)
+    (hb : find? B var = some b) (s : ℝ) (hs : _root_.abs s ≤ 1) :
+    tooBig (f (values (upd1 B var (b.value + s * ((one + Scalar.abs b.value) * hh))))) = false := by
+  apply hB.line var b hb
+  simp only [ScalarReal.one_eq, ScalarReal.abs_eq, add_sub_cancel_left, abs_mul]
+  have h1 : _root_.abs (1 + _root_.abs b.value) = 1 + _root_.abs b.value := abs_of_nonneg (by positivity)
+  rw [h1]
+  calc _root_.abs s * ((1 + _root_.abs b.value) * _root_.abs hh) ≤ 1 * ((1 + _root_.abs b.value) * _root_.abs hh) :=
+        mul_le_mul_of_nonneg_right hs (by positivity)
+    _ = (1 + _root_.abs b.value) * _root_.abs hh := one_mul _
+
+theorem BoundedNear.at' {f : List ℝ → ℝ} {B : PList ℝ} {hh : ℝ} (hB : BoundedNear f B hh) (var : Name) (b : Param ℝ)
+    (hb : find? B var = some b) (x s : ℝ) (hs : _root_.abs s ≤ 1)
+    (hx : x = b.value + s * ((one + Scalar.abs b.value) * hh)) :
+    tooBig (f (values (upd1 B var x))) = false := by
+  rw [hx]; exact hB.at var b hb s hs
 
 theorem violates_nocon (p : Param ℝ) (h : p.con = none) (x : ℝ) : p.violates x = false := by
   unfold Param.violates; rw [h]
@@ -83,7 +111,8 @@ theorem updL_dev_eq {params B l : PList ℝ} (hc : Ctx params B) (var : Name) (q
 
 /-- a probe on the nominal path -/
 theorem attempt_free (f : List ℝ → ℝ) {params B : PList ℝ} (hF : Free f params B) {var : Name} {fn : Fn ℝ} {p : PList ℝ}
-    (h : RI f params B var fn p) (hhead : ∀ q0 ∈ p.head?, q0.con = none ∧ q0.prec = 0) (x : ℝ) :
+    (h : RI f params B var fn p) (hhead : ∀ q0 ∈ p.head?, q0.con = none ∧ q0.prec = 0) (x : ℝ)
+    (hbx : tooBig (f (values (upd1 B var x))) = false) :
     (attempt f fn p x).ok = true ∧ (attempt f fn p x).fv = some (f (values (upd1 B var x))) ∧
     (attempt f fn p x).fn.params = upd1 B var x ∧ (attempt f fn p x).fn.OK f ∧
     (∃ q, (attempt f fn p x).p = [q] ∧ q.name = var ∧ q.con = none ∧ q.prec = 0) ∧
@@ -104,7 +133,7 @@ theorem attempt_free (f : List ℝ → ℝ) {params B : PList ℝ} (hF : Free f 
     updL_dev_eq hc var { q0 with value := x } rest hq0 hrest hD
   rw [heq, hupd]
   have hfv : ∀ g : Fn ℝ, g.OK f → g.params = upd1 B var x → tooBig g.fval = false := by
-    intro g hg _; rw [hg]; exact hF.bounded _
+    intro g hg hp; rw [hg, hp]; exact hbx
   cases fired with
   | true =>
     simp only [if_true]
@@ -129,7 +158,8 @@ theorem attempt_free (f : List ℝ → ℝ) {params B : PList ℝ} (hF : Free f 
 /-- a retry loop on the nominal path: the first try goes through -/
 theorem retry_free (f : List ℝ → ℝ) {params B : PList ℝ} (hF : Free f params B) {var : Name} (rp : Bool) (value : ℝ)
     (n : Nat) (fn : Fn ℝ) (p : PList ℝ) (h : ℝ) (fv : Option ℝ) (hri : RI f params B var fn p)
-    (hhead : ∀ q0 ∈ p.head?, q0.con = none ∧ q0.prec = 0) (hh : h ≠ 0) :
+    (hhead : ∀ q0 ∈ p.head?, q0.con = none ∧ q0.prec = 0) (hh : h ≠ 0)
+    (hbx : tooBig (f (values (upd1 B var (value + h)))) = false) :
     (retry f rp (n + 1) fn p value h fv).exc = none ∧ (retry f rp (n + 1) fn p value h fv).hf = some h ∧
     (retry f rp (n + 1) fn p value h fv).h = h ∧
     (retry f rp (n + 1) fn p value h fv).fv = some (f (values (upd1 B var (value + h)))) ∧
@@ -138,7 +168,7 @@ theorem retry_free (f : List ℝ → ℝ) {params B : PList ℝ} (hF : Free f pa
     (∃ q, (retry f rp (n + 1) fn p value h fv).p = [q] ∧ q.name = var ∧ q.con = none ∧ q.prec = 0) ∧
     (retry f rp (n + 1) fn p value h fv).fn.kind = fn.kind ∧
     (retry f rp (n + 1) fn p value h fv).fn.en1 = fn.en1 ∧ (retry f rp (n + 1) fn p value h fv).fn.en2 = fn.en2 := by
-  obtain ⟨a1, a2, a3, a4, a5, a6, a7, a8⟩ := attempt_free f hF hri hhead (value + h)
+  obtain ⟨a1, a2, a3, a4, a5, a6, a7, a8⟩ := attempt_free f hF hri hhead (value + h) hbx
   unfold retry
   simp only []
   rw [if_pos a1]
@@ -178,7 +208,8 @@ theorem subNames_two (l : PList ℝ) (a b : Name) (pa pb : Param ℝ) (ha : find
 /-- one iteration of the three-point loop on the nominal path -/
 theorem step3_free (f : List ℝ → ℝ) {params B : PList ℝ} (hF : Free f params B) {w0 : W ℝ} (lp : Loop ℝ)
     (hLI : LI f params B w0 (fun w => w.f2) lp) (i : Nat) (var : Name) (b : Param ℝ)
-    (hhas : has params var = true) (hb : find? B var = some b) (hlast : lp.lastVar ≠ some var) (hh : 0 < lp.w.h) :
+    (hhas : has params var = true) (hb : find? B var = some b) (hlast : lp.lastVar ≠ some var) (hh : 0 < lp.w.h)
+    (hB : BoundedNear f B lp.w.h) :
     (step3 f params lp i var).2 = none ∧ (step3 f params lp i var).1.lastVar = some var ∧
     (step3 f params lp i var).1.w.der1 = setAt lp.w.der1 i (some (d1Three
         (f (values (upd1 B var (b.value + -(one + Scalar.abs b.value) * lp.w.h))))
@@ -238,8 +269,17 @@ theorem step3_free (f : List ℝ → ℝ) {params B : PList ℝ} (hF : Free f pa
   have hh0 : -(one + Scalar.abs b.value) * lp.w.h ≠ 0 := by
     have : -(one + Scalar.abs b.value) * lp.w.h = -((one + Scalar.abs b.value) * lp.w.h) := by ring
     rw [this]; exact neg_ne_zero.mpr (ne_of_gt hpos)
+  have hrad := fun s hs => hB.at var b hb s hs
+  have hbL : tooBig (f (values (upd1 B var (b.value + -(one + Scalar.abs b.value) * lp.w.h)))) = false := by
+    have := hrad (-1) (by simp)
+    have e : b.value + -1 * ((one + Scalar.abs b.value) * lp.w.h) = b.value + -(one + Scalar.abs b.value) * lp.w.h := by ring
+    rw [e] at this; exact this
+  have hbR : tooBig (f (values (upd1 B var (b.value + -(-(one + Scalar.abs b.value) * lp.w.h))))) = false := by
+    have := hrad 1 (by simp)
+    have e : b.value + 1 * ((one + Scalar.abs b.value) * lp.w.h) = b.value + -(-(one + Scalar.abs b.value) * lp.w.h) := by ring
+    rw [e] at this; exact this
   obtain ⟨a1, a2, a3, a4, a5, a6, ⟨q1, hq1, hq1n, hq1c, hq1p⟩, a8, a9, a10⟩ :=
-    retry_free f hF true b.value 9 lp.w.fn p _ none hri hhead' hh0
+    retry_free f hF true b.value 9 lp.w.fn p _ none hri hhead' hh0 hbL
   have hneg : ltb (-(one + Scalar.abs b.value) * lp.w.h) zero = true := by
     rw [ScalarReal.ltb_iff]
     have : -(one + Scalar.abs b.value) * lp.w.h = -((one + Scalar.abs b.value) * lp.w.h) := by ring
@@ -270,7 +310,7 @@ theorem step3_free (f : List ℝ → ℝ) {params B : PList ℝ} (hF : Free f pa
     intro q0 hq0; rw [hq1] at hq0; simp at hq0; subst hq0; exact ⟨hq1c, hq1p⟩
   have hh3 : -(-(one + Scalar.abs b.value) * lp.w.h) ≠ 0 := neg_ne_zero.mpr hh0
   obtain ⟨c1, c2, c3, c4, c5, c6, _, c8, c9, c10⟩ :=
-    retry_free f hF false b.value 9 _ _ (-(-(one + Scalar.abs b.value) * lp.w.h)) none hri3 hhead3 hh3
+    retry_free f hF false b.value 9 _ _ (-(-(one + Scalar.abs b.value) * lp.w.h)) none hri3 hhead3 hh3 hbR
   -- assemble
   unfold step3
   have hnh : (!has params var) = false := by rw [hhas]; rfl
@@ -304,7 +344,8 @@ theorem setAt_get_self {β : Type} (l : List β) (i : Nat) (v : β) (h : i < l.l
   unfold setAt; exact List.getElem?_set_self h
 
 /-- the three-point loop on the nominal path -/
-theorem loop3_free (f : List ℝ → ℝ) {params B : PList ℝ} (hF : Free f params B) {w0 : W ℝ} (hh : 0 < w0.h) :
+theorem loop3_free (f : List ℝ → ℝ) {params B : PList ℝ} (hF : Free f params B) {w0 : W ℝ} (hh : 0 < w0.h)
+    (hB : BoundedNear f B w0.h) :
     ∀ (vs : List Name) (i0 : Nat) (lp : Loop ℝ), LI f params B w0 (fun w => w.f2) lp →
       (∀ l, lp.lastVar = some l → l ∉ vs) → vs.Nodup → (∀ v ∈ vs, has params v = true → v ∈ names B) →
       (loopGo (step3 f params) vs i0 lp).2 = none ∧
@@ -334,7 +375,7 @@ theorem loop3_free (f : List ℝ → ℝ) {params B : PList ℝ} (hF : Free f pa
         | some b => exact ⟨b, rfl⟩
       have hhl : 0 < lp.w.h := by rw [hLI.2.2.2.1.h]; exact hh
       obtain ⟨s1, s2, s3, s4, s5⟩ := step3_free f hF lp hLI i0 v b hhas hb
-        (fun e => hlast v e (List.mem_cons_self ..)) hhl
+        (fun e => hlast v e (List.mem_cons_self ..)) hhl (by rw [hLI.2.2.2.1.h]; exact hB)
       have hLI1 := step3_LI f hF.ctx lp hLI i0 v _ rfl s1
       rcases hs : step3 f params lp i0 v with ⟨lp1, e1⟩
       rw [hs] at s1 s2 s3 s4 s5 hLI1
@@ -475,7 +516,8 @@ theorem finish_free (f : List ℝ → ℝ) (params : PList ℝ) (lastVar : Optio
 
 /-- `updateDerivatives` of the three-point scheme on the nominal path (no cross derivatives) -/
 theorem update3_free (f : List ℝ → ℝ) (w : W ℝ) (params : PList ℝ) (hown : Own w.fn) (hok : w.fn.OK f)
-    (hF : Free f params w.fn.params) (hpnd : (names params).Nodup) (hc1 : w.c1 = true) (hcx : w.cx = false)
+    (hF : Free f params w.fn.params) (hB : BoundedNear f w.fn.params w.h)
+    (hpnd : (names params).Nodup) (hc1 : w.c1 = true) (hcx : w.cx = false)
     (hvars : w.vars.Nodup) (hin : ∀ v ∈ w.vars, has params v = true → v ∈ names w.fn.params) (hh : 0 < w.h)
     (hl1 : w.der1.length = w.vars.length) (hl2 : w.der2.length = w.vars.length) :
     (update3 f w params).2 = none ∧
@@ -502,13 +544,13 @@ theorem update3_free (f : List ℝ → ℝ) (w : W ℝ) (params : PList ℝ) (ho
     have hp1 : fn1.params = w.fn.params := by have := g1 trivial; simpa using this
     have hval : fn1.fval = f (values w.fn.params) := by rw [← hp1]; exact g2
     simp only []
-    have htb : tooBig fn1.fval = false := by rw [hval]; exact hF.bounded _
+    have htb : tooBig fn1.fval = false := by rw [hval]; exact hB.base
     rw [htb]
     simp only [Bool.false_eq_true, if_false]
     have hLI0 : LI f params w.fn.params { w with fn := fn1, f2 := fn1.fval } (fun w => w.f2)
         { w := { w with fn := fn1, f2 := fn1.fval }, p := [], lastVar := none } :=
       ⟨g2, (by rw [hp1]; exact Dev.refl _ _), (fun l h => by cases h), Frame.refl _, rfl⟩
-    obtain ⟨r1, r2, r3, r4, r5, _, r7⟩ := loop3_free f hF (w0 := { w with fn := fn1, f2 := fn1.fval }) hh w.vars 0 _ hLI0
+    obtain ⟨r1, r2, r3, r4, r5, _, r7⟩ := loop3_free f hF (w0 := { w with fn := fn1, f2 := fn1.fval }) hh hB w.vars 0 _ hLI0
       (fun l h => by cases h) hvars hin
     rcases hl : loopGo (step3 f params) w.vars 0 { w := { w with fn := fn1, f2 := fn1.fval }, p := [], lastVar := none } with ⟨lp, e⟩
     rw [hl] at r1 r2 r3 r4 r5 r7
